@@ -10,7 +10,10 @@ import "unsafe"
 //
 // Happens-before for ThreadSanitizer: every operation on a channel releases
 // to and acquires from one sync address per channel, i.e. all operations on
-// one channel are totally ordered. That over-approximates Go's channel rules
+// one channel are totally ordered. An operation that completes at once does
+// both BEFORE it hands over to the scheduler (the scheduler performs it right
+// then; where the task is parked afterwards must not order it after what others
+// do meanwhile); an operation that had to wait acquires again when it is woken. That over-approximates Go's channel rules
 // (it can hide a race that real channels would not order, it never invents one).
 
 type selCase struct {
@@ -68,8 +71,12 @@ func ChanSend[T any](ch chan<- T, v T) {
 	}
 	adopt[T](unsafe.Pointer(&ch), id)
 	RaceReleaseMerge(chanSync(id))
-	n, _, _ := Ask(ReqSelect, OpChan, 0, 0, []selCase{{send: true, addr: id, cap: cap(ch), val: v}})
 	RaceAcquire(chanSync(id))
+	n, _, _ := Ask(ReqSelect, OpChan, 0, 0, []selCase{{send: true, addr: id, cap: cap(ch), val: v}})
+	if n&ChanWaited != 0 {
+		n &^= ChanWaited
+		RaceAcquire(chanSync(id))
+	}
 	if n&2 != 0 {
 		panic("send on closed channel")
 	}
@@ -90,8 +97,12 @@ func ChanRecv2[T any](ch <-chan T) (T, bool) {
 	}
 	adopt[T](unsafe.Pointer(&ch), id)
 	RaceReleaseMerge(chanSync(id))
-	n, v, _ := Ask(ReqSelect, OpChan, 0, 0, []selCase{{addr: id, cap: cap(ch)}})
 	RaceAcquire(chanSync(id))
+	n, v, _ := Ask(ReqSelect, OpChan, 0, 0, []selCase{{addr: id, cap: cap(ch)}})
+	if n&ChanWaited != 0 {
+		n &^= ChanWaited
+		RaceAcquire(chanSync(id))
+	}
 	Progress()
 	if n&1 == 0 || v == nil {
 		if n&1 != 0 {
@@ -169,6 +180,7 @@ func Select(hasDefault bool, cases ...SelCase) (int, any, bool) {
 		cs[i] = c.c
 		if c.c.addr != 0 {
 			RaceReleaseMerge(chanSync(c.c.addr))
+			RaceAcquire(chanSync(c.c.addr))
 		}
 	}
 	def := int64(0)
@@ -176,11 +188,13 @@ func Select(hasDefault bool, cases ...SelCase) (int, any, bool) {
 		def = 1
 	}
 	n, v, _ := Ask(ReqSelect, OpChan, 0, def, cs)
-	idx := int(n >> 2)
 	if n < 0 {
 		return -1, nil, false
 	}
-	if cs[idx].addr != 0 {
+	waited := n&ChanWaited != 0
+	n &^= ChanWaited
+	idx := int(n >> 2)
+	if waited && cs[idx].addr != 0 {
 		RaceAcquire(chanSync(cs[idx].addr))
 	}
 	if cs[idx].send && n&2 != 0 {
